@@ -373,4 +373,40 @@ void operator delete(void *p) noexcept {
 void operator delete[](void *p) noexcept { operator delete(p); }
 void operator delete(void *p, std::size_t) noexcept { operator delete(p); }
 void operator delete[](void *p, std::size_t) noexcept { operator delete(p); }
+// every other replaceable form feeds the same counters: the ALIGNED forms (used by new-expressions of types with
+// alignof(T) > __STDCPP_DEFAULT_NEW_ALIGNMENT__; libstdc++'s versions do not go through the plain form) and the NOTHROW forms
+namespace rp {
+inline void *counted_alloc(std::size_t sz, std::size_t al) noexcept {
+    void *p = nullptr;
+    if (al <= __STDCPP_DEFAULT_NEW_ALIGNMENT__) p = malloc(sz ? sz : 1);
+    else if (posix_memalign(&p, al < sizeof(void *) ? sizeof(void *) : al, sz ? sz : 1) != 0) p = nullptr;
+    if (!p) return nullptr;
+#ifdef COCLS_VERIF_HOOKS_H_
+    if (cocls_verif::internal_allocs) return p;
+#endif
+    if (!alloc_stats::paused) {
+        alloc_stats::news++;
+        alloc_stats::g_news.fetch_add(1, std::memory_order_relaxed);
+    }
+    return p;
+}
+}  // namespace rp
+void *operator new(std::size_t sz, std::align_val_t al) {
+    void *p = rp::counted_alloc(sz, (std::size_t) al);
+    if (!p) throw std::bad_alloc();
+    return p;
+}
+void *operator new[](std::size_t sz, std::align_val_t al) { return operator new(sz, al); }
+void *operator new(std::size_t sz, const std::nothrow_t &) noexcept { return rp::counted_alloc(sz, 1); }
+void *operator new[](std::size_t sz, const std::nothrow_t &) noexcept { return rp::counted_alloc(sz, 1); }
+void *operator new(std::size_t sz, std::align_val_t al, const std::nothrow_t &) noexcept { return rp::counted_alloc(sz, (std::size_t) al); }
+void *operator new[](std::size_t sz, std::align_val_t al, const std::nothrow_t &) noexcept { return rp::counted_alloc(sz, (std::size_t) al); }
+void operator delete(void *p, std::align_val_t) noexcept { operator delete(p); }
+void operator delete[](void *p, std::align_val_t) noexcept { operator delete(p); }
+void operator delete(void *p, std::size_t, std::align_val_t) noexcept { operator delete(p); }
+void operator delete[](void *p, std::size_t, std::align_val_t) noexcept { operator delete(p); }
+void operator delete(void *p, const std::nothrow_t &) noexcept { operator delete(p); }
+void operator delete[](void *p, const std::nothrow_t &) noexcept { operator delete(p); }
+void operator delete(void *p, std::align_val_t, const std::nothrow_t &) noexcept { operator delete(p); }
+void operator delete[](void *p, std::align_val_t, const std::nothrow_t &) noexcept { operator delete(p); }
 #endif
